@@ -481,9 +481,8 @@ class ASTTypeBuilder:
             name, _ast.InputObjectTypeExtension
         )
 
-        field_names = set(f.name for f in input_object_type.fields)
-        fields = [
-            InputField(
+        def _extend_input_field(f: InputField) -> InputField:
+            return InputField(
                 f.name,
                 # has to be lazy to support cyclic definition
                 ft.partial(self.extend_type, f.type),
@@ -492,8 +491,9 @@ class ASTTypeBuilder:
                 node=f.node,
                 python_name=f.python_name,
             )
-            for f in input_object_type.fields
-        ]
+
+        field_names = set(f.name for f in input_object_type.fields)
+        fields = [_extend_input_field(f) for f in input_object_type.fields]
 
         for extension_node in extensions:
             for ext_field in extension_node.fields:
@@ -504,7 +504,11 @@ class ASTTypeBuilder:
                         [ext_field],
                     )
                 field_names.add(ext_field.name.value)
-                fields.append(self._build_input_field(ext_field))
+                # Fields coming from extensions must refer to the extended
+                # types as well.
+                fields.append(
+                    _extend_input_field(self._build_input_field(ext_field))
+                )
 
         return InputObjectType(
             name,
